@@ -38,7 +38,8 @@ ASSUMPTIONS = [
 MINIMUMS = {
     'quick': {'evaluations': 1200, 'objects_with>=3_paths': 150, 'cyclic_cases': 80, 'custom_registry_cycles': 15, 'get_all_paths_checked': 5000, 'rebuilds_checked': 3000,
               'paths_checked': 30000, 'tempbox_structures': 100, 'positional_buildables': 100,
-              'idreuse_results_checked': 2500},
+              'idreuse_results_checked': 2500, 'buildables_with_shuffled_kwargs': 400,
+              'get_all_paths_requeried_after_caller_edit': 5000},
     'thorough': {'evaluations': 1000},
 }
 
@@ -329,7 +330,16 @@ def check_structure(root_node, acc, with_tempbox):
       # `o` is an object (or leaf) of the structure itself, not a temporary
       under = 'under-temporary' if _under_temp(cur, ref_by_path) else 'plain'
       try:
-        allp = {conv_path(p, s) for p in state.get_all_paths()}
+        raw = state.get_all_paths()
+        allp = {conv_path(p, s) for p in raw}
+        if isinstance(raw, list) and raw:
+          del raw[:]                 # a consumer that edits the list it was handed ...
+          again = {conv_path(p, s) for p in state.get_all_paths()}
+          acc.obs('get_all_paths_requeried_after_caller_edit')
+          if again != allp:          # ... must not change what the next query returns
+            problems.append(('get_all_paths:result-aliases-internal-cache',
+                             f'at {cur!r}: {len(allp)} paths, {len(again)} after the caller '
+                             'emptied the list returned by the previous query'))
       except Exception as e:  # pylint: disable=broad-except
         kind = 'memoizable' if daglish.is_memoizable(o) else 'leaf'
         problems.append((f'get_all_paths:raises:{type(e).__name__}:{kind}-{under}', repr(e)[:200]))
@@ -403,9 +413,30 @@ def _under_temp(path, ref_by_path):
 
 
 def run_main(spec, acc):
+  import inspect
   for i, rng in acc.cases(spec):
     with_tempbox = i % 4 == 0
     root = make_structure(rng, with_tempbox)
+    # several **kwargs names per Buildable, inserted in a different order on different nodes
+    # (the order of **kwargs arguments is insertion order, not signature order)
+    nvk = 0
+    for n in gen.walk(root):
+      if isinstance(n, gen.B) and n.btype != 'TaggedValue' and rng.random() < 0.5:
+        try:
+          has_vk = any(p.kind == p.VAR_KEYWORD for p in inspect.signature(n.fn).parameters.values())
+        except (TypeError, ValueError):
+          has_vk = False
+        if has_vk:
+          extra = {k: v for k, v in n.kw.items() if k.startswith('extra_')}
+          for nm in rng.sample(['extra_p', 'extra_q', 'extra_r'], rng.choice([2, 3])):
+            extra.setdefault(nm, gen.Leaf(rng.choice(LEAVES)))
+          keys = list(extra)
+          rng.shuffle(keys)
+          n.kw = {k: v for k, v in n.kw.items() if k not in extra}
+          n.kw.update({k: extra[k] for k in keys})
+          nvk += 1
+    if nvk:
+      acc.obs('buildables_with_shuffled_kwargs', nvk)
     TEMPS.clear()
     del KEEP[:]
     CHILD_CACHE.clear()
